@@ -118,6 +118,21 @@ def job_panics(job):
     return res
 
 
+def confirm_get(m, l):
+    """a wrong capacity threshold is a C10 violation when the native build panics (debug profile: overflow checks on)"""
+    def conf(values, native):
+        n = values[0]
+        if n > 8000:
+            return kconfirm.version_get(m, l)(values, native)
+        ch = {0: 0x31, 1: 0x41, 2: 0x61}[m]
+        req = 'build %s %d - %d -' % (OV.hexs(bytes([ch]) * n), l, m)
+        ans = native.ask(req)
+        if ans.startswith('PANIC') or ans == 'ABORT':
+            return True, 'building %d %s characters at level %s panics: %s' % (n, iso.MODES[m], iso.LEVELS[l], ans[:90]), {'request': req[:200]}
+        return kconfirm.version_get(m, l)(values, native)
+    return conf
+
+
 def main(argv):
     chk = Check('C10', argv, features='svg')
     chk.rule = ('one obligation per assert/panic/unwrap/unreachable site instance met under a symbolic path condition in the pipeline runs, plus every '
@@ -128,10 +143,15 @@ def main(argv):
          'symbolic': 'buf: [u8; 24], len <= 24'},
         {'harness': 'c07_gf_multiply_kernel', 'key': 'C10/division', 'confirm': kconfirm.gf_kernel, 'symbolic': 'a: u8, e < 255'},
     ]
+    # every (mode, level): the harness asserts 4 + count bits + payload bits <= data bits for the chosen and every larger
+    # version, which is exactly "add_terminator's subtraction cannot wrap"
+    for (m, mn) in ((0, 'numeric'), (1, 'alnum'), (2, 'byte')):
+        for l in range(4):
+            ln = 'lmqh'[l]
+            specs.append({'harness': 'c05_get_%s_%s' % (mn, ln), 'key': 'C10/terminator-underflow', 'confirm': confirm_get(m, l), 'symbolic': 'len <= 2^40'})
     for (m, mn) in ((0, 'numeric'), (2, 'byte')):
         l = chk.rng.randrange(4)
         ln = 'lmqh'[l]
-        specs.append({'harness': 'c05_get_%s_%s' % (mn, ln), 'key': 'C10/version-get', 'confirm': kconfirm.version_get(m, l), 'symbolic': 'len <= 2^40'})
         specs.append({'harness': 'c05_huge_%s_%s' % (mn, ln), 'key': 'C10/version-get', 'confirm': kconfirm.version_get(m, l), 'symbolic': 'len > 2^40'})
     chk.run_kani(specs)
     jobs = []
@@ -162,7 +182,7 @@ def main(argv):
     chk.cov['runs'] = len(jobs)
     chk.bounds += ['%d symbolic runs of pipeline entry points (QRCode::new cells incl. lengths beyond every capacity, one with the real scoring; place_on_matrix; '
                    'structure+division; encode) - contents symbolic (so all-zero, all-0xFF and pad look-alikes are included), shapes enumerated' % len(jobs),
-                   'Kani: best_encoding up to 24 bytes, Version::get for every usize length (4 of the 24 mode/level harnesses here, all 24 in C05), GF kernel']
+                   'Kani: best_encoding up to 24 bytes, Version::get for every usize length (all 12 capacity harnesses incl. the no-wrap clause, 2 of the 12 beyond-2^40 ones; all 24 in C05), GF kernel']
     chk.outside += ['forced modes whose alphabet does not contain the input (documented panic)',
                     'cells/versions not run here; the panic obligations of every other check (C01, C02, C03, C04, C06, C07, C08, C15) are discharged in those checks as well']
     chk.assumptions += ['a loop with a symbolic trip count would be reported as unsupported (none met)', 'score::score uninterpreted except in the one run that executes it symbolically']
